@@ -228,7 +228,7 @@ pub fn property() -> Property {
             },
             SubCheck {
                 name: "generated_positions",
-                driver: Driver::Generated { gen: gen_pos_case, genome_len: 192, quick: 250_000, thorough: 6_000_000 },
+                driver: Driver::Generated { gen: gen_pos_case, genome_len: 192, quick: 500_000, thorough: 6_000_000 },
                 check: check_case,
                 configs: Configs::Both,
                 required: &["castling_candidate_rejected", "ep_candidate", "promotion_candidate", "double_step_blocked", "black_to_move"],
